@@ -99,6 +99,7 @@ class Unit:
         self.path = os.path.join(CONTRACTS, base + '.vc')
         self.slice_recv = []
         self.slice_recv_ref = []
+        self.bind_closure = []
         self.substs = []
         self.elements = []    # ('text', Line) | ('fn', FnSpec) | ('item', dict)
         self.props = set()
@@ -131,6 +132,8 @@ class Unit:
                         self.slice_recv.append(arg)
                     elif word == 'slice_recv_ref':
                         self.slice_recv_ref.append(arg)
+                    elif word == 'bind_closure':
+                        self.bind_closure.append(arg.strip())
                     elif word == 'subst':
                         self.substs.append(_parse_subst(arg, '%s:%d' % (rel, n)))
                     elif word == 'include':
@@ -364,6 +367,7 @@ def assemble(unit, index, expanded_name='expanded.rs', probe=None, lenient=False
             text = rw.rule_r6_idioms(text, fired)
             text = rw.rule_r10_mut_self(text, fired)
             text = rw.apply_substs(text, unit.substs, fired)
+            text = rw.rule_r11_bind_closure(text, fired, unit.bind_closure)
             text = rw.rule_r3_unchecked(text, fired, unit.slice_recv, unit.slice_recv_ref)
             text = rw.apply_substs(text, fs.fsubst, fired)
         except rw.Unsupported as e:
